@@ -1,106 +1,4 @@
-/- GENERATED by /verif/harness/extract.py from /repo's working tree — do not edit. -/
-namespace Gen
-
--- ---- versions ------------------------------------------------------------
-def ver_base_regex : List Char := ['\n', ' ', ' ', ' ', ' ', ' ', ' ', ' ', ' ', '^', '\n', ' ', ' ', ' ', ' ', ' ', ' ', ' ', ' ', '(', '?', 'P', '<', 'm', 'a', 'j', 'o', 'r', '>', '0', '|', '[', '1', '-', '9', ']', '\\', 'd', '*', ')', '\n', ' ', ' ', ' ', ' ', ' ', ' ', ' ', ' ', '(', '?', ':', '\n', ' ', ' ', ' ', ' ', ' ', ' ', ' ', ' ', ' ', ' ', ' ', ' ', '\\', '.', '\n', ' ', ' ', ' ', ' ', ' ', ' ', ' ', ' ', ' ', ' ', ' ', ' ', '(', '?', 'P', '<', 'm', 'i', 'n', 'o', 'r', '>', '0', '|', '[', '1', '-', '9', ']', '\\', 'd', '*', ')', '\n', ' ', ' ', ' ', ' ', ' ', ' ', ' ', ' ', ' ', ' ', ' ', ' ', '(', '?', ':', '\n', ' ', ' ', ' ', ' ', ' ', ' ', ' ', ' ', ' ', ' ', ' ', ' ', ' ', ' ', ' ', ' ', '\\', '.', '\n', ' ', ' ', ' ', ' ', ' ', ' ', ' ', ' ', ' ', ' ', ' ', ' ', ' ', ' ', ' ', ' ', '(', '?', 'P', '<', 'p', 'a', 't', 'c', 'h', '>', '0', '|', '[', '1', '-', '9', ']', '\\', 'd', '*', ')', '\n', ' ', ' ', ' ', ' ', ' ', ' ', ' ', ' ', ' ', ' ', ' ', ' ', ')', '\n', ' ', ' ', ' ', ' ', ' ', ' ', ' ', ' ', ')', '\n', ' ', ' ', ' ', ' ', ' ', ' ', ' ', ' ', '$', '\n', ' ', ' ', ' ', ' ']
-def ver_base_regex_opt : List Char := ['\n', ' ', ' ', ' ', ' ', ' ', ' ', ' ', ' ', '^', '\n', ' ', ' ', ' ', ' ', ' ', ' ', ' ', ' ', '(', '?', 'P', '<', 'm', 'a', 'j', 'o', 'r', '>', '0', '|', '[', '1', '-', '9', ']', '\\', 'd', '*', ')', '\n', ' ', ' ', ' ', ' ', ' ', ' ', ' ', ' ', '(', '?', ':', '\n', ' ', ' ', ' ', ' ', ' ', ' ', ' ', ' ', ' ', ' ', ' ', ' ', '\\', '.', '\n', ' ', ' ', ' ', ' ', ' ', ' ', ' ', ' ', ' ', ' ', ' ', ' ', '(', '?', 'P', '<', 'm', 'i', 'n', 'o', 'r', '>', '0', '|', '[', '1', '-', '9', ']', '\\', 'd', '*', ')', '\n', ' ', ' ', ' ', ' ', ' ', ' ', ' ', ' ', ' ', ' ', ' ', ' ', '(', '?', ':', '\n', ' ', ' ', ' ', ' ', ' ', ' ', ' ', ' ', ' ', ' ', ' ', ' ', ' ', ' ', ' ', ' ', '\\', '.', '\n', ' ', ' ', ' ', ' ', ' ', ' ', ' ', ' ', ' ', ' ', ' ', ' ', ' ', ' ', ' ', ' ', '(', '?', 'P', '<', 'p', 'a', 't', 'c', 'h', '>', '0', '|', '[', '1', '-', '9', ']', '\\', 'd', '*', ')', '\n', ' ', ' ', ' ', ' ', ' ', ' ', ' ', ' ', ' ', ' ', ' ', ' ', ')', '?', '\n', ' ', ' ', ' ', ' ', ' ', ' ', ' ', ' ', ')', '?', '\n', ' ', ' ', ' ', ' ', ' ', ' ', ' ', ' ', '$', '\n', ' ', ' ', ' ', ' ']
-def ver_sem_regex : List Char := ['\n', ' ', ' ', ' ', ' ', ' ', ' ', ' ', ' ', '^', '\n', ' ', ' ', ' ', ' ', ' ', ' ', ' ', ' ', '(', '?', 'P', '<', 'm', 'a', 'j', 'o', 'r', '>', '0', '|', '[', '1', '-', '9', ']', '\\', 'd', '*', ')', '\n', ' ', ' ', ' ', ' ', ' ', ' ', ' ', ' ', '(', '?', ':', '\n', ' ', ' ', ' ', ' ', ' ', ' ', ' ', ' ', ' ', ' ', ' ', ' ', '\\', '.', '\n', ' ', ' ', ' ', ' ', ' ', ' ', ' ', ' ', ' ', ' ', ' ', ' ', '(', '?', 'P', '<', 'm', 'i', 'n', 'o', 'r', '>', '0', '|', '[', '1', '-', '9', ']', '\\', 'd', '*', ')', '\n', ' ', ' ', ' ', ' ', ' ', ' ', ' ', ' ', ' ', ' ', ' ', ' ', '(', '?', ':', '\n', ' ', ' ', ' ', ' ', ' ', ' ', ' ', ' ', ' ', ' ', ' ', ' ', ' ', ' ', ' ', ' ', '\\', '.', '\n', ' ', ' ', ' ', ' ', ' ', ' ', ' ', ' ', ' ', ' ', ' ', ' ', ' ', ' ', ' ', ' ', '(', '?', 'P', '<', 'p', 'a', 't', 'c', 'h', '>', '0', '|', '[', '1', '-', '9', ']', '\\', 'd', '*', ')', '\n', ' ', ' ', ' ', ' ', ' ', ' ', ' ', ' ', ' ', ' ', ' ', ' ', ')', '\n', ' ', ' ', ' ', ' ', ' ', ' ', ' ', ' ', ')', '\n', ' ', ' ', ' ', ' ', ' ', ' ', ' ', ' ', '(', '?', ':', '-', '(', '?', 'P', '<', 'p', 'r', 'e', '>', '\n', ' ', ' ', ' ', ' ', ' ', ' ', ' ', ' ', ' ', ' ', ' ', ' ', '(', '?', ':', '0', '|', '[', '1', '-', '9', ']', '\\', 'd', '*', '|', '\\', 'd', '*', '[', 'a', '-', 'z', 'A', '-', 'Z', '-', ']', '[', '0', '-', '9', 'a', '-', 'z', 'A', '-', 'Z', '-', ']', '*', ')', '\n', ' ', ' ', ' ', ' ', ' ', ' ', ' ', ' ', ' ', ' ', ' ', ' ', '(', '?', ':', '\\', '.', '(', '?', ':', '0', '|', '[', '1', '-', '9', ']', '\\', 'd', '*', '|', '\\', 'd', '*', '[', 'a', '-', 'z', 'A', '-', 'Z', '-', ']', '[', '0', '-', '9', 'a', '-', 'z', 'A', '-', 'Z', '-', ']', '*', ')', ')', '*', '\n', ' ', ' ', ' ', ' ', ' ', ' ', ' ', ' ', ')', ')', '?', '\n', ' ', ' ', ' ', ' ', ' ', ' ', ' ', ' ', '(', '?', ':', '\\', '+', '(', '?', 'P', '<', 'b', 'u', 'i', 'l', 'd', '>', '\n', ' ', ' ', ' ', ' ', ' ', ' ', ' ', ' ', ' ', ' ', ' ', ' ', '[', '0', '-', '9', 'a', '-', 'z', 'A', '-', 'Z', '-', ']', '+', '\n', ' ', ' ', ' ', ' ', ' ', ' ', ' ', ' ', ' ', ' ', ' ', ' ', '(', '?', ':', '\\', '.', '[', '0', '-', '9', 'a', '-', 'z', 'A', '-', 'Z', '-', ']', '+', ')', '*', '\n', ' ', ' ', ' ', ' ', ' ', ' ', ' ', ' ', ')', ')', '?', '\n', ' ', ' ', ' ', ' ', ' ', ' ', ' ', ' ', '$', '\n', ' ', ' ', ' ', ' ']
-def ver_sem_regex_opt : List Char := ['\n', ' ', ' ', ' ', ' ', ' ', ' ', ' ', ' ', '^', '\n', ' ', ' ', ' ', ' ', ' ', ' ', ' ', ' ', '(', '?', 'P', '<', 'm', 'a', 'j', 'o', 'r', '>', '0', '|', '[', '1', '-', '9', ']', '\\', 'd', '*', ')', '\n', ' ', ' ', ' ', ' ', ' ', ' ', ' ', ' ', '(', '?', ':', '\n', ' ', ' ', ' ', ' ', ' ', ' ', ' ', ' ', ' ', ' ', ' ', ' ', '\\', '.', '\n', ' ', ' ', ' ', ' ', ' ', ' ', ' ', ' ', ' ', ' ', ' ', ' ', '(', '?', 'P', '<', 'm', 'i', 'n', 'o', 'r', '>', '0', '|', '[', '1', '-', '9', ']', '\\', 'd', '*', ')', '\n', ' ', ' ', ' ', ' ', ' ', ' ', ' ', ' ', ' ', ' ', ' ', ' ', '(', '?', ':', '\n', ' ', ' ', ' ', ' ', ' ', ' ', ' ', ' ', ' ', ' ', ' ', ' ', ' ', ' ', ' ', ' ', '\\', '.', '\n', ' ', ' ', ' ', ' ', ' ', ' ', ' ', ' ', ' ', ' ', ' ', ' ', ' ', ' ', ' ', ' ', '(', '?', 'P', '<', 'p', 'a', 't', 'c', 'h', '>', '0', '|', '[', '1', '-', '9', ']', '\\', 'd', '*', ')', '\n', ' ', ' ', ' ', ' ', ' ', ' ', ' ', ' ', ' ', ' ', ' ', ' ', ')', '?', '\n', ' ', ' ', ' ', ' ', ' ', ' ', ' ', ' ', ')', '?', '\n', ' ', ' ', ' ', ' ', ' ', ' ', ' ', ' ', '(', '?', ':', '-', '(', '?', 'P', '<', 'p', 'r', 'e', '>', '\n', ' ', ' ', ' ', ' ', ' ', ' ', ' ', ' ', ' ', ' ', ' ', ' ', '(', '?', ':', '0', '|', '[', '1', '-', '9', ']', '\\', 'd', '*', '|', '\\', 'd', '*', '[', 'a', '-', 'z', 'A', '-', 'Z', '-', ']', '[', '0', '-', '9', 'a', '-', 'z', 'A', '-', 'Z', '-', ']', '*', ')', '\n', ' ', ' ', ' ', ' ', ' ', ' ', ' ', ' ', ' ', ' ', ' ', ' ', '(', '?', ':', '\\', '.', '(', '?', ':', '0', '|', '[', '1', '-', '9', ']', '\\', 'd', '*', '|', '\\', 'd', '*', '[', 'a', '-', 'z', 'A', '-', 'Z', '-', ']', '[', '0', '-', '9', 'a', '-', 'z', 'A', '-', 'Z', '-', ']', '*', ')', ')', '*', '\n', ' ', ' ', ' ', ' ', ' ', ' ', ' ', ' ', ')', ')', '?', '\n', ' ', ' ', ' ', ' ', ' ', ' ', ' ', ' ', '(', '?', ':', '\\', '+', '(', '?', 'P', '<', 'b', 'u', 'i', 'l', 'd', '>', '\n', ' ', ' ', ' ', ' ', ' ', ' ', ' ', ' ', ' ', ' ', ' ', ' ', '[', '0', '-', '9', 'a', '-', 'z', 'A', '-', 'Z', '-', ']', '+', '\n', ' ', ' ', ' ', ' ', ' ', ' ', ' ', ' ', ' ', ' ', ' ', ' ', '(', '?', ':', '\\', '.', '[', '0', '-', '9', 'a', '-', 'z', 'A', '-', 'Z', '-', ']', '+', ')', '*', '\n', ' ', ' ', ' ', ' ', ' ', ' ', ' ', ' ', ')', ')', '?', '\n', ' ', ' ', ' ', ' ', ' ', ' ', ' ', ' ', '$', '\n', ' ', ' ', ' ', ' ']
-def ver_pkg_regex : List Char := ['\n', ' ', ' ', ' ', ' ', ' ', ' ', ' ', ' ', '^', '\n', ' ', ' ', ' ', ' ', ' ', ' ', ' ', ' ', 'v', '?', '\n', ' ', ' ', ' ', ' ', ' ', ' ', ' ', ' ', '(', '?', ':', '\n', ' ', ' ', ' ', ' ', ' ', ' ', ' ', ' ', ' ', ' ', ' ', ' ', '(', '?', ':', '(', '?', 'P', '<', 'e', 'p', 'o', 'c', 'h', '>', '[', '0', '-', '9', ']', '+', ')', '!', ')', '?', '\n', ' ', ' ', ' ', ' ', ' ', ' ', ' ', ' ', ' ', ' ', ' ', ' ', '(', '?', 'P', '<', 'm', 'a', 'j', 'o', 'r', '>', '0', '|', '[', '1', '-', '9', ']', '\\', 'd', '*', ')', '\n', ' ', ' ', ' ', ' ', ' ', ' ', ' ', ' ', ' ', ' ', ' ', ' ', '(', '?', ':', '\n', ' ', ' ', ' ', ' ', ' ', ' ', ' ', ' ', ' ', ' ', ' ', ' ', ' ', ' ', ' ', ' ', '\\', '.', '\n', ' ', ' ', ' ', ' ', ' ', ' ', ' ', ' ', ' ', ' ', ' ', ' ', ' ', ' ', ' ', ' ', '(', '?', 'P', '<', 'm', 'i', 'n', 'o', 'r', '>', '0', '|', '[', '1', '-', '9', ']', '\\', 'd', '*', ')', '\n', ' ', ' ', ' ', ' ', ' ', ' ', ' ', ' ', ' ', ' ', ' ', ' ', ' ', ' ', ' ', ' ', '(', '?', ':', '\n', ' ', ' ', ' ', ' ', ' ', ' ', ' ', ' ', ' ', ' ', ' ', ' ', ' ', ' ', ' ', ' ', ' ', ' ', ' ', ' ', '\\', '.', '\n', ' ', ' ', ' ', ' ', ' ', ' ', ' ', ' ', ' ', ' ', ' ', ' ', ' ', ' ', ' ', ' ', ' ', ' ', ' ', ' ', '(', '?', 'P', '<', 'p', 'a', 't', 'c', 'h', '>', '0', '|', '[', '1', '-', '9', ']', '\\', 'd', '*', ')', '\n', ' ', ' ', ' ', ' ', ' ', ' ', ' ', ' ', ' ', ' ', ' ', ' ', ' ', ' ', ' ', ' ', ')', '?', '\n', ' ', ' ', ' ', ' ', ' ', ' ', ' ', ' ', ' ', ' ', ' ', ' ', ')', '?', '\n', ' ', ' ', ' ', ' ', ' ', ' ', ' ', ' ', ' ', ' ', ' ', ' ', '(', '?', 'P', '<', 'p', 'r', 'e', '>', '\n', ' ', ' ', ' ', ' ', ' ', ' ', ' ', ' ', ' ', ' ', ' ', ' ', ' ', ' ', ' ', ' ', '[', '-', '_', '\\', '.', ']', '?', '\n', ' ', ' ', ' ', ' ', ' ', ' ', ' ', ' ', ' ', ' ', ' ', ' ', ' ', ' ', ' ', ' ', '(', '?', ':', 'a', '|', 'b', '|', 'c', '|', 'r', 'c', '|', 'a', 'l', 'p', 'h', 'a', '|', 'b', 'e', 't', 'a', '|', 'p', 'r', 'e', '|', 'p', 'r', 'e', 'v', 'i', 'e', 'w', ')', '\n', ' ', ' ', ' ', ' ', ' ', ' ', ' ', ' ', ' ', ' ', ' ', ' ', ' ', ' ', ' ', ' ', '[', '-', '_', '\\', '.', ']', '?', '\n', ' ', ' ', ' ', ' ', ' ', ' ', ' ', ' ', ' ', ' ', ' ', ' ', ' ', ' ', ' ', ' ', '(', '?', ':', '[', '0', '-', '9', ']', '+', ')', '?', '\n', ' ', ' ', ' ', ' ', ' ', ' ', ' ', ' ', ' ', ' ', ' ', ' ', ')', '?', '\n', ' ', ' ', ' ', ' ', ' ', ' ', ' ', ' ', ' ', ' ', ' ', ' ', '(', '?', 'P', '<', 'p', 'o', 's', 't', '>', '\n', ' ', ' ', ' ', ' ', ' ', ' ', ' ', ' ', ' ', ' ', ' ', ' ', ' ', ' ', ' ', ' ', '(', '?', ':', '-', '(', '?', ':', '[', '0', '-', '9', ']', '+', ')', ')', '\n', ' ', ' ', ' ', ' ', ' ', ' ', ' ', ' ', ' ', ' ', ' ', ' ', ' ', ' ', ' ', ' ', '|', '\n', ' ', ' ', ' ', ' ', ' ', ' ', ' ', ' ', ' ', ' ', ' ', ' ', ' ', ' ', ' ', ' ', '(', '?', ':', '\n', ' ', ' ', ' ', ' ', ' ', ' ', ' ', ' ', ' ', ' ', ' ', ' ', ' ', ' ', ' ', ' ', ' ', ' ', ' ', ' ', '[', '-', '_', '\\', '.', ']', '?', '\n', ' ', ' ', ' ', ' ', ' ', ' ', ' ', ' ', ' ', ' ', ' ', ' ', ' ', ' ', ' ', ' ', ' ', ' ', ' ', ' ', '(', '?', ':', 'p', 'o', 's', 't', '|', 'r', 'e', 'v', '|', 'r', ')', '\n', ' ', ' ', ' ', ' ', ' ', ' ', ' ', ' ', ' ', ' ', ' ', ' ', ' ', ' ', ' ', ' ', ' ', ' ', ' ', ' ', '[', '-', '_', '\\', '.', ']', '?', '\n', ' ', ' ', ' ', ' ', ' ', ' ', ' ', ' ', ' ', ' ', ' ', ' ', ' ', ' ', ' ', ' ', ' ', ' ', ' ', ' ', '(', '?', ':', '[', '0', '-', '9', ']', '+', ')', '?', '\n', ' ', ' ', ' ', ' ', ' ', ' ', ' ', ' ', ' ', ' ', ' ', ' ', ' ', ' ', ' ', ' ', ')', '\n', ' ', ' ', ' ', ' ', ' ', ' ', ' ', ' ', ' ', ' ', ' ', ' ', ')', '?', '\n', ' ', ' ', ' ', ' ', ' ', ' ', ' ', ' ', ' ', ' ', ' ', ' ', '(', '?', 'P', '<', 'd', 'e', 'v', '>', '\n', ' ', ' ', ' ', ' ', ' ', ' ', ' ', ' ', ' ', ' ', ' ', ' ', ' ', ' ', ' ', ' ', '[', '-', '_', '\\', '.', ']', '?', '\n', ' ', ' ', ' ', ' ', ' ', ' ', ' ', ' ', ' ', ' ', ' ', ' ', ' ', ' ', ' ', ' ', '(', '?', ':', 'd', 'e', 'v', ')', '\n', ' ', ' ', ' ', ' ', ' ', ' ', ' ', ' ', ' ', ' ', ' ', ' ', ' ', ' ', ' ', ' ', '[', '-', '_', '\\', '.', ']', '?', '\n', ' ', ' ', ' ', ' ', ' ', ' ', ' ', ' ', ' ', ' ', ' ', ' ', ' ', ' ', ' ', ' ', '(', '?', ':', '[', '0', '-', '9', ']', '+', ')', '?', '\n', ' ', ' ', ' ', ' ', ' ', ' ', ' ', ' ', ' ', ' ', ' ', ' ', ')', '?', '\n', ' ', ' ', ' ', ' ', ' ', ' ', ' ', ' ', ')', '\n', ' ', ' ', ' ', ' ', ' ', ' ', ' ', ' ', '(', '?', ':', '\n', ' ', ' ', ' ', ' ', ' ', ' ', ' ', ' ', ' ', ' ', ' ', ' ', '\\', '+', '\n', ' ', ' ', ' ', ' ', ' ', ' ', ' ', ' ', ' ', ' ', ' ', ' ', '(', '?', 'P', '<', 'l', 'o', 'c', 'a', 'l', '>', '\n', ' ', ' ', ' ', ' ', ' ', ' ', ' ', ' ', ' ', ' ', ' ', ' ', ' ', ' ', ' ', ' ', '[', 'a', '-', 'z', '0', '-', '9', ']', '+', '\n', ' ', ' ', ' ', ' ', ' ', ' ', ' ', ' ', ' ', ' ', ' ', ' ', ' ', ' ', ' ', ' ', '(', '?', ':', '[', '-', '_', '\\', '.', ']', '[', 'a', '-', 'z', '0', '-', '9', ']', '+', ')', '*', '\n', ' ', ' ', ' ', ' ', ' ', ' ', ' ', ' ', ' ', ' ', ' ', ' ', ')', '\n', ' ', ' ', ' ', ' ', ' ', ' ', ' ', ' ', ')', '?', '\n', ' ', ' ', ' ', ' ', ' ', ' ', ' ', ' ', '$', '\n', ' ', ' ', ' ', ' ']
-def ver_base_slots : List (List Char) := [['m', 'a', 'j', 'o', 'r'], ['m', 'i', 'n', 'o', 'r'], ['p', 'a', 't', 'c', 'h']]
-def ver_sem_slots : List (List Char) := [['m', 'a', 'j', 'o', 'r'], ['m', 'i', 'n', 'o', 'r'], ['p', 'a', 't', 'c', 'h'], ['p', 'r', 'e'], ['b', 'u', 'i', 'l', 'd']]
-def ver_pkg_slots : List (List Char) := [['e', 'p', 'o', 'c', 'h'], ['m', 'a', 'j', 'o', 'r'], ['m', 'i', 'n', 'o', 'r'], ['p', 'a', 't', 'c', 'h'], ['p', 'r', 'e'], ['p', 'o', 's', 't'], ['d', 'e', 'v'], ['l', 'o', 'c', 'a', 'l']]
-def ver_base_parts : List (List Char) := [['m', 'a', 'j', 'o', 'r'], ['m', 'i', 'n', 'o', 'r'], ['p', 'a', 't', 'c', 'h']]
-def ver_sem_parts : List (List Char) := [['m', 'a', 'j', 'o', 'r'], ['m', 'i', 'n', 'o', 'r'], ['p', 'a', 't', 'c', 'h'], ['p', 'r', 'e']]
-def ver_pkg_parts : List (List Char) := [['e', 'p', 'o', 'c', 'h'], ['m', 'a', 'j', 'o', 'r'], ['m', 'i', 'n', 'o', 'r'], ['p', 'a', 't', 'c', 'h'], ['p', 'r', 'e'], ['p', 'o', 's', 't'], ['d', 'e', 'v']]
-def extract_letter_regex : List Char := ['[', '.', '_', '-', ']', '?', '(', '?', 'P', '<', 'p', 'r', 'e', 'f', 'i', 'x', '>', '[', 'a', '-', 'z', 'A', '-', 'Z', ']', '+', ')', '[', '.', '_', '-', ']', '?', '(', '?', 'P', '<', 'n', 'u', 'm', 'b', 'e', 'r', '>', '\\', 'd', '+', ')', '?', '$']
-def extract_letter_implicit_regex : List Char := ['-', '(', '?', 'P', '<', 'n', 'u', 'm', 'b', 'e', 'r', '>', '\\', 'd', '+', ')', '$']
-def extract_letter_table : List (List (List Char)) := [[['a', 'l', 'p', 'h', 'a'], ['a']], [['b', 'e', 't', 'a'], ['b']], [['c'], ['p', 'r', 'e'], ['p', 'r', 'e', 'v', 'i', 'e', 'w'], ['r', 'c']], [['r', 'e', 'v'], ['r'], ['p', 'o', 's', 't']]]
-def increment_regex : List Char := ['(', '?', ':', '\\', 'D', '*', '(', '\\', 'd', '+', ')', '\\', 'D', '*', ')', '+']
-def extract_local_split : List Char := ['[', '.', '_', '-', ']']
-def match_ops2 : List (List Char) := [['>', '='], ['<', '='], ['=', '='], ['!', '='], ['~', '=']]
-def match_ops1 : List (List Char) := [['>'], ['<'], ['^'], ['~']]
-def match_bare_first : List Char := ['0', '1', '2', '3', '4', '5', '6', '7', '8', '9']
-def match_possibilities : List (List Char × List Int) := [(['>'], [(1 : Int)]), (['<'], [(-1 : Int)]), (['=', '='], [(0 : Int)]), (['!', '='], [(-1 : Int), (1 : Int)]), (['>', '='], [(0 : Int), (1 : Int)]), (['<', '='], [(-1 : Int), (0 : Int)]), (['~', '='], [(0 : Int), (1 : Int)]), (['~'], [(0 : Int), (1 : Int)]), (['^'], [(0 : Int), (1 : Int)])]
-def match_tilde_ops : List (List Char) := [['~', '='], ['~']]
-
--- ---- formatters ------------------------------------------------------------
-def gen_format_token_re : List Char := ['%', '%', '|', '%', '[', '-', '+', '!', '*', ']', '?', '[', 'A', '-', 'Z', 'a', '-', 'z', ']']
-def gen_format_inner_re : List Char := ['\\', '(', '\\', '?', 'P', '<', '(', '?', 'P', '<', 'a', 'l', 'i', 'a', 's', '>', '\\', 'w', '+', ')', '>', '(', '?', 'P', '<', 'f', 'm', 't', '>', '(', '?', ':', '(', '?', '!', '\\', '(', '\\', '?', 'P', '<', '\\', 'w', '+', '>', ')', '.', ')', '*', ')', '\\', ')']
-def gen_format_sub_pre : List Char := ['\\', '(', '\\', '?', 'P', '<']
-def gen_format_sub_post : List Char := ['>']
-def gen_format_percent : List Char := ['%']
-def gen_format_alias_parts : List (List Char) := [['(', '?', 'P', '<'], [], [], [], ['>']]
-def regex_token_re : List Char := ['(', '%', '[', '-', '+', '!', '*', ']', '?', '[', 'A', '-', 'Z', 'a', '-', 'z', ']', ')']
-def format_token_re : List Char := ['(', '%', '[', '-', '+', '!', '*', ']', '?', '[', 'A', '-', 'Z', 'a', '-', 'z', ']', ')']
-def format_escape : List Char := ['[', 'E', 'S', 'C', 'A', 'P', 'E', ']']
-def from_value_token_re : List Char := ['(', '%', '[', '-', '+', '!', '*', ']', '?', '[', 'A', '-', 'Z', 'a', '-', 'z', ']', ')']
-def parse_anchor_pre : List Char := ['^']
-def parse_anchor_post : List Char := ['\\', 'Z']
-def group_anchor_pre : List Char := ['^']
-def group_anchor_post : List Char := ['\\', 'Z']
-def group_gen_pre : List Char := ['(', '?', 'P', '<', 'f', 'o', 'u', 'n', 'd', '>', '{']
-def group_gen_post : List Char := ['(', '?', '!', '\\', 'w', ')', ':', '?', '(', '?', 'P', '<', 'f', 'o', 'r', 'm', 'a', 't', '>', '[', '^', '{', '}', ']', '+', ')', '?', '}', ')']
-def group_format_re : List Char := ['(', '?', 'P', '<', 'f', 'o', 'u', 'n', 'd', '>', '{', '(', '?', 'P', '<', 'g', 'r', 'o', 'u', 'p', '>', '\\', 'w', '+', ')', ':', '?', '(', '?', 'P', '<', 'f', 'o', 'r', 'm', 'a', 't', '>', '[', '^', '{', '}', ']', '+', ')', '?', '}', ')']
-def serial_formatter : List (List Char × Bool × List Char) := [(['%', 'n'], false, ['(', '?', 'P', '<', 'n', 'u', 'm', 'b', 'e', 'r', '>', '[', '0', '-', '9', ']', '*', ')']), (['%', 'p'], false, ['(', '?', 'P', '<', 'n', 'u', 'm', 'b', 'e', 'r', '_', 'p', 'a', 'd', '>', '[', '0', '-', '9', ']', '{', '3', '}', ')']), (['%', 'b'], false, ['(', '?', 'P', '<', 'n', 'u', 'm', 'b', 'e', 'r', '_', 'b', 'i', 'n', 'a', 'r', 'y', '>', '[', '0', '-', '1', ']', '*', ')']), (['%', 'c'], false, ['(', '?', 'P', '<', 'n', 'u', 'm', 'b', 'e', 'r', '_', 'c', 'o', 'm', 'm', 'a', '>', '\\', 'd', '{', '1', ',', '3', '}', '(', '?', ':', ',', '\\', 'd', '{', '3', '}', ')', '*', ')']), (['%', 'u'], false, ['(', '?', 'P', '<', 'n', 'u', 'm', 'b', 'e', 'r', '_', 'u', 'n', 'd', 'e', 'r', 's', 'c', 'o', 'r', 'e', '>', '\\', 'd', '{', '1', ',', '3', '}', '(', '?', ':', '_', '\\', 'd', '{', '3', '}', ')', '*', ')'])]
-def serial_priorities : List (List Char × List Nat) := [(['n', 'u', 'm', 'b', 'e', 'r'], [1]), (['n', 'u', 'm', 'b', 'e', 'r', '_', 'p', 'a', 'd'], [1]), (['n', 'u', 'm', 'b', 'e', 'r', '_', 'b', 'i', 'n', 'a', 'r', 'y'], [1]), (['n', 'u', 'm', 'b', 'e', 'r', '_', 'c', 'o', 'm', 'm', 'a'], [1]), (['n', 'u', 'm', 'b', 'e', 'r', '_', 'u', 'n', 'd', 'e', 'r', 's', 'c', 'o', 'r', 'e'], [1]), (['n', 'u', 'm', 'b', 'e', 'r', '_', 'd', 'e', 'f', 'a', 'u', 'l', 't'], [0])]
-def serial_base_fmt : List Char := ['%', 'n']
-def serial_base_level : Nat := 1
-def serial_slots : List (List Char) := [['n', 'u', 'm', 'b', 'e', 'r'], ['s', 'e', 'r', 'i', 'a', 'l']]
-def serial_name : List Char := ['S', 'e', 'r', 'i', 'a', 'l']
-def serial_max_padding : Nat := 3
-def serial_max_binary : Nat := 8
-def datetime_formatter : List (List Char × Bool × List Char) := [(['%', 'n'], true, ['%', 'Y', '%', 'm', '%', 'd', '_', '%', 'H', '%', 'M', '%', 'S']), (['%', 'Y'], false, ['(', '?', 'P', '<', 'y', 'e', 'a', 'r', '>', '\\', 'd', '{', '4', '}', ')']), (['%', 'y'], false, ['(', '?', 'P', '<', 'y', 'e', 'a', 'r', '_', 'c', 'u', 't', '_', 'p', 'a', 'd', '>', '\\', 'd', '{', '2', '}', ')']), (['%', '-', 'y'], false, ['(', '?', 'P', '<', 'y', 'e', 'a', 'r', '_', 'c', 'u', 't', '>', '\\', 'd', '{', '1', ',', '2', '}', ')']), (['%', 'm'], false, ['(', '?', 'P', '<', 'm', 'o', 'n', 't', 'h', '_', 'p', 'a', 'd', '>', '0', '1', '|', '0', '2', '|', '0', '3', '|', '0', '4', '|', '0', '5', '|', '0', '6', '|', '0', '7', '|', '0', '8', '|', '0', '9', '|', '1', '0', '|', '1', '1', '|', '1', '2', ')']), (['%', '-', 'm'], false, ['(', '?', 'P', '<', 'm', 'o', 'n', 't', 'h', '>', '1', '|', '2', '|', '3', '|', '4', '|', '5', '|', '6', '|', '7', '|', '8', '|', '9', '|', '1', '0', '|', '1', '1', '|', '1', '2', ')']), (['%', 'b'], false, ['(', '?', 'P', '<', 'm', 'o', 'n', 't', 'h', '_', 's', 'h', 'o', 'r', 't', '>', 'J', 'a', 'n', '|', 'F', 'e', 'b', '|', 'M', 'a', 'r', '|', 'A', 'p', 'r', '|', 'M', 'a', 'y', '|', 'J', 'u', 'n', '|', 'J', 'u', 'l', '|', 'A', 'u', 'g', '|', 'S', 'e', 'p', '|', 'O', 'c', 't', '|', 'N', 'o', 'v', '|', 'D', 'e', 'c', ')']), (['%', 'B'], false, ['(', '?', 'P', '<', 'm', 'o', 'n', 't', 'h', '_', 'f', 'u', 'l', 'l', '>', 'J', 'a', 'n', 'u', 'a', 'r', 'y', '|', 'F', 'e', 'b', 'r', 'u', 'a', 'r', 'y', '|', 'M', 'a', 'r', 'c', 'h', '|', 'A', 'p', 'r', 'i', 'l', '|', 'M', 'a', 'y', '|', 'J', 'u', 'n', 'e', '|', 'J', 'u', 'l', 'y', '|', 'A', 'u', 'g', 'u', 's', 't', '|', 'S', 'e', 'p', 't', 'e', 'm', 'b', 'e', 'r', '|', 'O', 'c', 't', 'o', 'b', 'e', 'r', '|', 'N', 'o', 'v', 'e', 'm', 'b', 'e', 'r', '|', 'D', 'e', 'c', 'e', 'm', 'b', 'e', 'r', ')']), (['%', 'a'], false, ['(', '?', 'P', '<', 'w', 'e', 'e', 'k', '_', 's', 'h', 'o', 'r', 't', '>', 'M', 'o', 'n', '|', 'T', 'h', 'u', '|', 'W', 'e', 'd', '|', 'T', 'u', 'e', '|', 'F', 'r', 'i', '|', 'S', 'a', 't', '|', 'S', 'u', 'n', ')']), (['%', 'A'], false, ['(', '?', 'P', '<', 'w', 'e', 'e', 'k', '_', 'f', 'u', 'l', 'l', '>', 'M', 'o', 'n', 'd', 'a', 'y', '|', 'T', 'h', 'u', 'r', 's', 'd', 'a', 'y', '|', 'W', 'e', 'd', 'n', 'e', 's', 'd', 'a', 'y', '|', 'T', 'u', 'e', 's', 'd', 'a', 'y', '|', 'F', 'r', 'i', 'd', 'a', 'y', '|', 'S', 'a', 't', 'u', 'r', 'd', 'a', 'y', '|', 'S', 'u', 'n', 'd', 'a', 'y', ')']), (['%', 'w'], false, ['(', '?', 'P', '<', 'w', 'e', 'e', 'k', '>', '[', '0', '-', '6', ']', ')']), (['%', 'u'], false, ['(', '?', 'P', '<', 'w', 'e', 'e', 'k', '_', 'm', 'o', 'n', '>', '[', '1', '-', '7', ']', ')']), (['%', 'd'], false, ['(', '?', 'P', '<', 'd', 'a', 'y', '_', 'p', 'a', 'd', '>', '[', '0', '-', '3', ']', '[', '0', '-', '9', ']', ')']), (['%', '-', 'd'], false, ['(', '?', 'P', '<', 'd', 'a', 'y', '>', '\\', 'd', '{', '1', ',', '2', '}', ')']), (['%', 'H'], false, ['(', '?', 'P', '<', 'h', 'o', 'u', 'r', '_', 'p', 'a', 'd', '>', '[', '0', '-', '2', ']', '[', '0', '-', '9', ']', ')']), (['%', '-', 'H'], false, ['(', '?', 'P', '<', 'h', 'o', 'u', 'r', '>', '\\', 'd', '{', '2', '}', ')']), (['%', 'I'], false, ['(', '?', 'P', '<', 'h', 'o', 'u', 'r', '_', '1', '2', '_', 'p', 'a', 'd', '>', '0', '0', '|', '0', '1', '|', '0', '2', '|', '0', '3', '|', '0', '4', '|', '0', '5', '|', '0', '6', '|', '0', '7', '|', '0', '8', '|', '0', '9', '|', '1', '0', '|', '1', '1', '|', '1', '2', ')']), (['%', '-', 'I'], false, ['(', '?', 'P', '<', 'h', 'o', 'u', 'r', '_', '1', '2', '>', '0', '|', '1', '|', '2', '|', '3', '|', '4', '|', '5', '|', '6', '|', '7', '|', '8', '|', '9', '|', '1', '0', '|', '1', '1', '|', '1', '2', ')']), (['%', 'M'], false, ['(', '?', 'P', '<', 'm', 'i', 'n', 'u', 't', 'e', '_', 'p', 'a', 'd', '>', '[', '0', '-', '6', ']', '[', '0', '-', '9', ']', ')']), (['%', '-', 'M'], false, ['(', '?', 'P', '<', 'm', 'i', 'n', 'u', 't', 'e', '>', '\\', 'd', '{', '1', ',', '2', '}', ')']), (['%', 'S'], false, ['(', '?', 'P', '<', 's', 'e', 'c', 'o', 'n', 'd', '_', 'p', 'a', 'd', '>', '[', '0', '-', '6', ']', '[', '0', '-', '9', ']', ')']), (['%', '-', 'S'], false, ['(', '?', 'P', '<', 's', 'e', 'c', 'o', 'n', 'd', '>', '\\', 'd', '{', '1', ',', '2', '}', ')']), (['%', 'j'], false, ['(', '?', 'P', '<', 'd', 'a', 'y', '_', 'y', 'e', 'a', 'r', '_', 'p', 'a', 'd', '>', '[', '0', '-', '3', ']', '[', '0', '-', '9', ']', '[', '0', '-', '9', ']', ')']), (['%', '-', 'j'], false, ['(', '?', 'P', '<', 'd', 'a', 'y', '_', 'y', 'e', 'a', 'r', '>', '\\', 'd', '{', '1', ',', '3', '}', ')']), (['%', 'U'], false, ['(', '?', 'P', '<', 'w', 'e', 'e', 'k', 's', '_', 'y', 'e', 'a', 'r', '_', 's', 'u', 'n', '_', 'p', 'a', 'd', '>', '[', '0', '-', '5', ']', '[', '0', '-', '9', ']', ')']), (['%', 'W'], false, ['(', '?', 'P', '<', 'w', 'e', 'e', 'k', 's', '_', 'y', 'e', 'a', 'r', '_', 'm', 'o', 'n', '_', 'p', 'a', 'd', '>', '[', '0', '-', '5', ']', '[', '0', '-', '9', ']', ')']), (['%', 'p'], false, ['(', '?', 'P', '<', 'l', 'o', 'c', 'a', 'l', 'e', '>', 'P', 'M', '|', 'A', 'M', ')']), (['%', 'f'], false, ['(', '?', 'P', '<', 'm', 'i', 'c', 'r', 'o', 's', 'e', 'c', 'o', 'n', 'd', '_', 'p', 'a', 'd', '>', '\\', 'd', '{', '6', '}', ')'])]
-def datetime_priorities : List (List Char × List Nat) := [(['l', 'o', 'c', 'a', 'l', 'e'], [1]), (['y', 'e', 'a', 'r'], [10]), (['y', 'e', 'a', 'r', '_', 'c', 'u', 't', '_', 'p', 'a', 'd'], [10]), (['y', 'e', 'a', 'r', '_', 'c', 'u', 't'], [10]), (['y', 'e', 'a', 'r', '_', 'd', 'e', 'f', 'a', 'u', 'l', 't'], [0]), (['m', 'o', 'n', 't', 'h'], [9]), (['m', 'o', 'n', 't', 'h', '_', 'p', 'a', 'd'], [9]), (['m', 'o', 'n', 't', 'h', '_', 's', 'h', 'o', 'r', 't'], [9]), (['m', 'o', 'n', 't', 'h', '_', 'f', 'u', 'l', 'l'], [9]), (['m', 'o', 'n', 't', 'h', '_', 'd', 'e', 'f', 'a', 'u', 'l', 't'], [0]), (['d', 'a', 'y'], [8]), (['d', 'a', 'y', '_', 'p', 'a', 'd'], [8]), (['d', 'a', 'y', '_', 'y', 'e', 'a', 'r'], [8, 9]), (['d', 'a', 'y', '_', 'y', 'e', 'a', 'r', '_', 'p', 'a', 'd'], [8, 9]), (['d', 'a', 'y', '_', 'd', 'e', 'f', 'a', 'u', 'l', 't'], [0]), (['w', 'e', 'e', 'k'], [2]), (['w', 'e', 'e', 'k', '_', 'm', 'o', 'n'], [2]), (['w', 'e', 'e', 'k', '_', 's', 'h', 'o', 'r', 't'], [2]), (['w', 'e', 'e', 'k', '_', 'f', 'u', 'l', 'l'], [2]), (['w', 'e', 'e', 'k', '_', 'd', 'e', 'f', 'a', 'u', 'l', 't'], [0]), (['w', 'e', 'e', 'k', 's', '_', 'y', 'e', 'a', 'r', '_', 'm', 'o', 'n', '_', 'p', 'a', 'd'], [9]), (['w', 'e', 'e', 'k', 's', '_', 'y', 'e', 'a', 'r', '_', 's', 'u', 'n', '_', 'p', 'a', 'd'], [9]), (['h', 'o', 'u', 'r'], [5, 6]), (['h', 'o', 'u', 'r', '_', 'p', 'a', 'd'], [5, 6]), (['h', 'o', 'u', 'r', '_', '1', '2'], [5]), (['h', 'o', 'u', 'r', '_', '1', '2', '_', 'p', 'a', 'd'], [5]), (['h', 'o', 'u', 'r', '_', 'd', 'e', 'f', 'a', 'u', 'l', 't'], [0]), (['l', 'o', 'c', 'a', 'l', 'e', '_', 'd', 'e', 'f', 'a', 'u', 'l', 't'], [0]), (['m', 'i', 'n', 'u', 't', 'e'], [4]), (['m', 'i', 'n', 'u', 't', 'e', '_', 'p', 'a', 'd'], [4]), (['m', 'i', 'n', 'u', 't', 'e', '_', 'd', 'e', 'f', 'a', 'u', 'l', 't'], [0]), (['s', 'e', 'c', 'o', 'n', 'd'], [3]), (['s', 'e', 'c', 'o', 'n', 'd', '_', 'p', 'a', 'd'], [3]), (['s', 'e', 'c', 'o', 'n', 'd', '_', 'd', 'e', 'f', 'a', 'u', 'l', 't'], [0]), (['m', 'i', 'c', 'r', 'o', 's', 'e', 'c', 'o', 'n', 'd', '_', 'p', 'a', 'd'], [2]), (['m', 'i', 'c', 'r', 'o', 's', 'e', 'c', 'o', 'n', 'd', '_', 'd', 'e', 'f', 'a', 'u', 'l', 't'], [0])]
-def datetime_base_fmt : List Char := ['%', 'Y', '-', '%', 'm', '-', '%', 'd', ' ', '%', 'H', ':', '%', 'M', ':', '%', 'S', '.', '%', 'f']
-def datetime_base_level : Nat := 10
-def datetime_slots : List (List Char) := [['y', 'e', 'a', 'r'], ['m', 'o', 'n', 't', 'h'], ['w', 'e', 'e', 'k'], ['w', 'e', 'e', 'k', 's'], ['d', 'a', 'y'], ['h', 'o', 'u', 'r'], ['m', 'i', 'n', 'u', 't', 'e'], ['s', 'e', 'c', 'o', 'n', 'd'], ['m', 'i', 'c', 'r', 'o', 's', 'e', 'c', 'o', 'n', 'd'], ['l', 'o', 'c', 'a', 'l', 'e'], ['d', 'a', 't', 'e', 't', 'i', 'm', 'e']]
-def datetime_name : List Char := ['D', 'a', 't', 'e', 't', 'i', 'm', 'e']
-def version_formatter : List (List Char × Bool × List Char) := [(['%', 'f'], true, ['%', 'm', '_', '%', 'n', '_', '%', 'c']), (['%', '-', 'f'], true, ['%', 'm', '-', '%', 'n', '-', '%', 'c']), (['%', 'm'], false, ['(', '?', 'P', '<', 'm', 'a', 'j', 'o', 'r', '>', '\\', 'd', '{', '1', ',', '3', '}', ')']), (['%', 'n'], false, ['(', '?', 'P', '<', 'm', 'i', 'n', 'o', 'r', '>', '\\', 'd', '{', '1', ',', '3', '}', ')']), (['%', 'c'], false, ['(', '?', 'P', '<', 'm', 'i', 'c', 'r', 'o', '>', '\\', 'd', '{', '1', ',', '3', '}', ')']), (['%', 'e'], false, ['(', '?', 'P', '<', 'e', 'p', 'o', 'c', 'h', '>', '[', '0', '-', '9', ']', '+', '!', ')']), (['%', '-', 'e'], false, ['(', '?', 'P', '<', 'e', 'p', 'o', 'c', 'h', '_', 'n', 'u', 'm', '>', '[', '0', '-', '9', ']', '+', ')']), (['%', 'q'], false, ['(', '?', 'P', '<', 'p', 'r', 'e', '>', '(', 'a', '|', 'b', '|', 'c', '|', 'r', 'c', '|', 'a', 'l', 'p', 'h', 'a', '|', 'b', 'e', 't', 'a', '|', 'p', 'r', 'e', '|', 'p', 'r', 'e', 'v', 'i', 'e', 'w', ')', '[', '-', '_', '\\', '.', ']', '?', '[', '0', '-', '9', ']', '+', ')']), (['%', 'p'], false, ['(', '?', 'P', '<', 'p', 'o', 's', 't', '>', '(', '?', ':', '(', 'p', 'o', 's', 't', '|', 'r', 'e', 'v', '|', 'r', ')', '[', '-', '_', '\\', '.', ']', '?', '[', '0', '-', '9', ']', '+', ')', '|', '(', '?', ':', '-', '[', '0', '-', '9', ']', '+', ')', ')']), (['%', '-', 'p'], false, ['(', '?', 'P', '<', 'p', 'o', 's', 't', '_', 'n', 'u', 'm', '>', '[', '0', '-', '9', ']', '+', ')']), (['%', 'd'], false, ['(', '?', 'P', '<', 'd', 'e', 'v', '>', 'd', 'e', 'v', '[', '-', '_', '\\', '.', ']', '?', '[', '0', '-', '9', ']', '+', ')']), (['%', 'l'], false, ['(', '?', 'P', '<', 'l', 'o', 'c', 'a', 'l', '>', '\\', '+', '[', 'a', '-', 'z', '0', '-', '9', ']', '+', '(', '?', ':', '[', '-', '_', '\\', '.', ']', '[', 'a', '-', 'z', '0', '-', '9', ']', '+', ')', '*', ')']), (['%', '-', 'l'], false, ['(', '?', 'P', '<', 'l', 'o', 'c', 'a', 'l', '_', 's', 't', 'r', '>', '[', 'a', '-', 'z', '0', '-', '9', ']', '+', '(', '?', ':', '[', '-', '_', '\\', '.', ']', '[', 'a', '-', 'z', '0', '-', '9', ']', '+', ')', '*', ')'])]
-def version_priorities : List (List Char × List Nat) := [(['e', 'p', 'o', 'c', 'h'], [4]), (['e', 'p', 'o', 'c', 'h', '_', 'n', 'u', 'm'], [4]), (['e', 'p', 'o', 'c', 'h', '_', 'd', 'e', 'f', 'a', 'u', 'l', 't'], [0]), (['m', 'a', 'j', 'o', 'r'], [3]), (['m', 'a', 'j', 'o', 'r', '_', 'd', 'e', 'f', 'a', 'u', 'l', 't'], [0]), (['m', 'i', 'n', 'o', 'r'], [2]), (['m', 'i', 'n', 'o', 'r', '_', 'd', 'e', 'f', 'a', 'u', 'l', 't'], [0]), (['m', 'i', 'c', 'r', 'o'], [1]), (['m', 'i', 'c', 'r', 'o', '_', 'd', 'e', 'f', 'a', 'u', 'l', 't'], [0]), (['p', 'r', 'e'], [0]), (['p', 'o', 's', 't'], [0]), (['p', 'o', 's', 't', '_', 'n', 'u', 'm'], [0]), (['d', 'e', 'v'], [0]), (['l', 'o', 'c', 'a', 'l'], [0]), (['l', 'o', 'c', 'a', 'l', '_', 's', 't', 'r'], [0])]
-def version_base_fmt : List Char := ['%', 'm', '_', '%', 'n', '_', '%', 'c']
-def version_base_level : Nat := 4
-def version_slots : List (List Char) := [['v', 'e', 'r', 's', 'i', 'o', 'n'], ['e', 'p', 'o', 'c', 'h'], ['m', 'a', 'j', 'o', 'r'], ['m', 'i', 'n', 'o', 'r'], ['m', 'i', 'c', 'r', 'o'], ['p', 'r', 'e'], ['p', 'o', 's', 't'], ['d', 'e', 'v'], ['l', 'o', 'c', 'a', 'l']]
-def version_name : List Char := ['V', 'e', 'r', 's', 'i', 'o', 'n']
-def naming_formatter : List (List Char × Bool × List Char) := [(['%', 'n'], true, ['%', 'l']), (['%', 'N'], true, ['%', 'u']), (['%', '-', 'N'], true, ['%', 't']), (['%', 'u'], false, ['(', '?', 'P', '<', 's', 't', 'r', 'i', 'n', 'g', 's', '_', 'u', 'p', 'p', 'e', 'r', '>', '[', 'A', '-', 'Z', '0', '-', '9', ']', '+', '(', '?', ':', '\\', 's', '[', 'A', '-', 'Z', '0', '-', '9', ']', '+', ')', '*', ')']), (['%', 'l'], false, ['(', '?', 'P', '<', 's', 't', 'r', 'i', 'n', 'g', 's', '>', '[', 'a', '-', 'z', '0', '-', '9', ']', '+', '(', '?', ':', '\\', 's', '[', 'a', '-', 'z', '0', '-', '9', ']', '+', ')', '*', ')']), (['%', 't'], false, ['(', '?', 'P', '<', 's', 't', 'r', 'i', 'n', 'g', 's', '_', 't', 'i', 't', 'l', 'e', '>', '[', 'A', '-', 'Z', ']', '[', 'a', '-', 'z', '0', '-', '9', ']', '+', '(', '?', ':', '\\', 's', '[', 'A', '-', 'Z', ']', '+', '[', 'a', '-', 'z', '0', '-', '9', ']', '*', ')', '*', ')']), (['%', 'a'], false, ['(', '?', 'P', '<', 's', 'h', 'o', 'r', 't', 's', '>', '[', 'a', '-', 'z', '0', '-', '9', ']', '+', ')']), (['%', 'A'], false, ['(', '?', 'P', '<', 's', 'h', 'o', 'r', 't', 's', '_', 'u', 'p', 'p', 'e', 'r', '>', '[', 'A', '-', 'Z', '0', '-', '9', ']', '+', ')']), (['%', 'c'], false, ['(', '?', 'P', '<', 's', 't', 'r', 'i', 'n', 'g', 's', '_', 'c', 'a', 'm', 'e', 'l', '>', '[', 'a', '-', 'z', ']', '+', '(', '(', '\\', 'd', ')', '|', '(', '[', 'A', '-', 'Z', '0', '-', '9', ']', '[', 'a', '-', 'z', '0', '-', '9', ']', '+', ')', ')', '*', '(', '[', 'A', '-', 'Z', ']', ')', '?', ')']), (['%', '-', 'c'], true, ['%', 'p']), (['%', 'p'], false, ['(', '?', 'P', '<', 's', 't', 'r', 'i', 'n', 'g', 's', '_', 'p', 'a', 's', 'c', 'a', 'l', '>', '[', 'A', '-', 'Z', ']', '(', '[', 'A', '-', 'Z', '0', '-', '9', ']', '*', '[', 'a', '-', 'z', ']', '[', 'a', '-', 'z', '0', '-', '9', ']', '*', '[', 'A', '-', 'Z', ']', '|', '[', 'a', '-', 'z', '0', '-', '9', ']', '*', '[', 'A', '-', 'Z', ']', '[', 'A', '-', 'Z', '0', '-', '9', ']', '*', '[', 'a', '-', 'z', ']', ')', '[', 'A', '-', 'Z', 'a', '-', 'z', '0', '-', '9', ']', '*', ')']), (['%', 'k'], false, ['(', '?', 'P', '<', 's', 't', 'r', 'i', 'n', 'g', 's', '_', 'k', 'e', 'b', 'a', 'b', '>', '[', 'a', '-', 'z', '0', '-', '9', ']', '+', '(', '?', ':', '-', '[', 'a', '-', 'z', '0', '-', '9', ']', '+', ')', '*', ')']), (['%', 'K'], false, ['(', '?', 'P', '<', 's', 't', 'r', 'i', 'n', 'g', 's', '_', 'k', 'e', 'b', 'a', 'b', '_', 'u', 'p', 'p', 'e', 'r', '>', '[', 'A', '-', 'Z', '0', '-', '9', ']', '+', '(', '?', ':', '-', '[', 'A', '-', 'Z', '0', '-', '9', ']', '+', ')', '*', ')']), (['%', '-', 'K'], true, ['%', 'T']), (['%', 'f'], false, ['(', '?', 'P', '<', 'f', 'l', 'a', 't', 's', '>', '[', 'a', '-', 'z', '0', '-', '9', ']', '+', ')']), (['%', 'F'], false, ['(', '?', 'P', '<', 'f', 'l', 'a', 't', 's', '_', 'u', 'p', 'p', 'e', 'r', '>', '[', 'A', '-', 'Z', '0', '-', '9', ']', '+', ')']), (['%', 's'], false, ['(', '?', 'P', '<', 's', 't', 'r', 'i', 'n', 'g', 's', '_', 's', 'n', 'a', 'k', 'e', '>', '[', 'a', '-', 'z', '0', '-', '9', ']', '+', '(', '?', ':', '_', '[', 'a', '-', 'z', '0', '-', '9', ']', '+', ')', '*', ')']), (['%', 'S'], false, ['(', '?', 'P', '<', 's', 't', 'r', 'i', 'n', 'g', 's', '_', 's', 'n', 'a', 'k', 'e', '_', 'u', 'p', 'p', 'e', 'r', '>', '[', 'A', '-', 'Z', '0', '-', '9', ']', '+', '(', '?', ':', '_', '[', 'A', '-', 'Z', '0', '-', '9', ']', '+', ')', '*', ')']), (['%', '-', 'S'], false, ['(', '?', 'P', '<', 's', 't', 'r', 'i', 'n', 'g', 's', '_', 's', 'n', 'a', 'k', 'e', '_', 't', 'i', 't', 'l', 'e', '>', '[', 'A', '-', 'Z', ']', '[', 'a', '-', 'z', '0', '-', '9', ']', '+', '(', '?', ':', '_', '[', 'A', '-', 'Z', ']', '+', '[', 'a', '-', 'z', '0', '-', '9', ']', '*', ')', '*', ')']), (['%', 'T'], false, ['(', '?', 'P', '<', 's', 't', 'r', 'i', 'n', 'g', 's', '_', 't', 'r', 'a', 'i', 'n', '>', '[', 'A', '-', 'Z', ']', '[', 'a', '-', 'z', '0', '-', '9', ']', '+', '(', '?', ':', '-', '[', 'A', '-', 'Z', ']', '+', '[', 'a', '-', 'z', '0', '-', '9', ']', '*', ')', '*', ')']), (['%', 'v'], false, ['(', '?', 'P', '<', 'v', 'o', 'w', 'e', 'l', 's', '>', '[', 'b', '-', 'd', 'f', '-', 'h', 'j', '-', 'n', 'p', '-', 't', 'v', '-', 'z', ']', '+', ')']), (['%', 'V'], false, ['(', '?', 'P', '<', 'v', 'o', 'w', 'e', 'l', 's', '_', 'u', 'p', 'p', 'e', 'r', '>', '[', 'B', '-', 'D', 'F', '-', 'H', 'J', '-', 'N', 'P', '-', 'T', 'V', '-', 'Z', ']', '+', ')'])]
-def naming_priorities : List (List Char × List Nat) := [(['s', 't', 'r', 'i', 'n', 'g', 's'], [5]), (['s', 't', 'r', 'i', 'n', 'g', 's', '_', 'u', 'p', 'p', 'e', 'r'], [5]), (['s', 't', 'r', 'i', 'n', 'g', 's', '_', 't', 'i', 't', 'l', 'e'], [5]), (['s', 't', 'r', 'i', 'n', 'g', 's', '_', 'l', 'o', 'w', 'e', 'r'], [5]), (['s', 't', 'r', 'i', 'n', 'g', 's', '_', 'c', 'a', 'm', 'e', 'l'], [5]), (['s', 't', 'r', 'i', 'n', 'g', 's', '_', 'p', 'a', 's', 'c', 'a', 'l'], [5]), (['s', 't', 'r', 'i', 'n', 'g', 's', '_', 'k', 'e', 'b', 'a', 'b'], [5]), (['s', 't', 'r', 'i', 'n', 'g', 's', '_', 'k', 'e', 'b', 'a', 'b', '_', 'u', 'p', 'p', 'e', 'r'], [5]), (['s', 't', 'r', 'i', 'n', 'g', 's', '_', 't', 'r', 'a', 'i', 'n'], [5]), (['s', 't', 'r', 'i', 'n', 'g', 's', '_', 's', 'n', 'a', 'k', 'e'], [5]), (['s', 't', 'r', 'i', 'n', 'g', 's', '_', 's', 'n', 'a', 'k', 'e', '_', 'u', 'p', 'p', 'e', 'r'], [5]), (['s', 't', 'r', 'i', 'n', 'g', 's', '_', 's', 'n', 'a', 'k', 'e', '_', 't', 'i', 't', 'l', 'e'], [5]), (['s', 't', 'r', 'i', 'n', 'g', 's', '_', 'd', 'e', 'f', 'a', 'u', 'l', 't'], [0]), (['f', 'l', 'a', 't', 's'], [3]), (['f', 'l', 'a', 't', 's', '_', 'u', 'p', 'p', 'e', 'r'], [3]), (['f', 'l', 'a', 't', 's', '_', 'd', 'e', 'f', 'a', 'u', 'l', 't'], [0]), (['s', 'h', 'o', 'r', 't', 's'], [2]), (['s', 'h', 'o', 'r', 't', 's', '_', 'u', 'p', 'p', 'e', 'r'], [2]), (['s', 'h', 'o', 'r', 't', 's', '_', 'd', 'e', 'f', 'a', 'u', 'l', 't'], [0]), (['v', 'o', 'w', 'e', 'l', 's'], [1]), (['v', 'o', 'w', 'e', 'l', 's', '_', 'u', 'p', 'p', 'e', 'r'], [1]), (['v', 'o', 'w', 'e', 'l', 's', '_', 'd', 'e', 'f', 'a', 'u', 'l', 't'], [0])]
-def naming_base_fmt : List Char := ['%', 'n']
-def naming_base_level : Nat := 5
-def naming_slots : List (List Char) := [['n', 'a', 'm', 'i', 'n', 'g'], ['s', 't', 'r', 'i', 'n', 'g', 's'], ['f', 'l', 'a', 't', 's'], ['s', 'h', 'o', 'r', 't', 's'], ['v', 'o', 'w', 'e', 'l', 's']]
-def naming_name : List Char := ['N', 'a', 'm', 'i', 'n', 'g']
-def storage_formatter : List (List Char × Bool × List Char) := [(['%', 'b'], false, ['(', '?', 'P', '<', 'b', 'i', 't', '>', '[', '0', '-', '9', ']', '*', '.', '?', '[', '0', '-', '9', ']', '*', ')']), (['%', 'B'], false, ['(', '?', 'P', '<', 'b', 'y', 't', 'e', '>', '[', '0', '-', '9', ']', '*', 'B', ')']), (['%', 'K'], false, ['(', '?', 'P', '<', 'b', 'y', 't', 'e', '_', 'k', 'i', 'l', 'o', '>', '[', '0', '-', '9', ']', '*', 'K', 'B', ')']), (['%', 'M'], false, ['(', '?', 'P', '<', 'b', 'y', 't', 'e', '_', 'm', 'e', 'g', 'a', '>', '[', '0', '-', '9', ']', '*', 'M', 'B', ')']), (['%', 'G'], false, ['(', '?', 'P', '<', 'b', 'y', 't', 'e', '_', 'g', 'i', 'g', 'a', '>', '[', '0', '-', '9', ']', '*', 'G', 'B', ')']), (['%', 'T'], false, ['(', '?', 'P', '<', 'b', 'y', 't', 'e', '_', 't', 'e', 'r', 'a', '>', '[', '0', '-', '9', ']', '*', 'T', 'B', ')']), (['%', 'P'], false, ['(', '?', 'P', '<', 'b', 'y', 't', 'e', '_', 'p', 'e', 't', 'a', '>', '[', '0', '-', '9', ']', '*', 'P', 'B', ')']), (['%', 'E'], false, ['(', '?', 'P', '<', 'b', 'y', 't', 'e', '_', 'e', 'x', 'a', '>', '[', '0', '-', '9', ']', '*', 'E', 'B', ')']), (['%', 'Z'], false, ['(', '?', 'P', '<', 'b', 'y', 't', 'e', '_', 'z', 'e', 't', 't', 'a', '>', '[', '0', '-', '9', ']', '*', 'Z', 'B', ')']), (['%', 'Y'], false, ['(', '?', 'P', '<', 'b', 'y', 't', 'e', '_', 'y', 'o', 't', 't', 'a', '>', '[', '0', '-', '9', ']', '*', 'Y', 'B', ')'])]
-def storage_priorities : List (List Char × List Nat) := [(['b', 'i', 't'], [1]), (['b', 'y', 't', 'e'], [1]), (['b', 'y', 't', 'e', '_', 'k', 'i', 'l', 'o'], [1]), (['b', 'y', 't', 'e', '_', 'm', 'e', 'g', 'a'], [1]), (['b', 'y', 't', 'e', '_', 'g', 'i', 'g', 'a'], [1]), (['b', 'y', 't', 'e', '_', 't', 'e', 'r', 'a'], [1]), (['b', 'y', 't', 'e', '_', 'p', 'e', 't', 'a'], [1]), (['b', 'y', 't', 'e', '_', 'e', 'x', 'a'], [1]), (['b', 'y', 't', 'e', '_', 'z', 'e', 't', 't', 'a'], [1]), (['b', 'y', 't', 'e', '_', 'y', 'o', 't', 't', 'a'], [1]), (['b', 'i', 't', '_', 'd', 'e', 'f', 'a', 'u', 'l', 't'], [0]), (['b', 'y', 't', 'e', '_', 'd', 'e', 'f', 'a', 'u', 'l', 't'], [0])]
-def storage_base_fmt : List Char := ['%', 'b']
-def storage_base_level : Nat := 1
-def storage_slots : List (List Char) := [['b', 'i', 't'], ['b', 'y', 't', 'e'], ['s', 't', 'o', 'r', 'a', 'g', 'e']]
-def storage_name : List Char := ['S', 't', 'o', 'r', 'a', 'g', 'e']
-def storage_rounding : Nat := 0
-def months : List (List Char × List Char) := [(['J', 'a', 'n'], ['0', '1']), (['F', 'e', 'b'], ['0', '2']), (['M', 'a', 'r'], ['0', '3']), (['A', 'p', 'r'], ['0', '4']), (['M', 'a', 'y'], ['0', '5']), (['J', 'u', 'n'], ['0', '6']), (['J', 'u', 'l'], ['0', '7']), (['A', 'u', 'g'], ['0', '8']), (['S', 'e', 'p'], ['0', '9']), (['O', 'c', 't'], ['1', '0']), (['N', 'o', 'v'], ['1', '1']), (['D', 'e', 'c'], ['1', '2'])]
-def weeks : List (List Char × List Char) := [(['S', 'u', 'n'], ['0']), (['M', 'o', 'n'], ['1']), (['T', 'h', 'u'], ['2']), (['W', 'e', 'd'], ['3']), (['T', 'u', 'e'], ['4']), (['F', 'r', 'i'], ['5']), (['S', 'a', 't'], ['6'])]
-def weeks_full : List (List Char × List Char) := [(['0'], ['S', 'u', 'n', 'd', 'a', 'y']), (['1'], ['M', 'o', 'n', 'd', 'a', 'y']), (['2'], ['T', 'h', 'u', 'r', 's', 'd', 'a', 'y']), (['3'], ['W', 'e', 'd', 'n', 'e', 's', 'd', 'a', 'y']), (['4'], ['T', 'u', 'e', 's', 'd', 'a', 'y']), (['5'], ['F', 'r', 'i', 'd', 'a', 'y']), (['6'], ['S', 'a', 't', 'u', 'r', 'd', 'a', 'y'])]
-def sizes : List (List Char) := [['B'], ['K', 'B'], ['M', 'B'], ['G', 'B'], ['T', 'B'], ['P', 'B'], ['E', 'B'], ['Z', 'B'], ['Y', 'B']]
-def datetime_renderers : List (List Char × Bool × List Char) := [(['%', 'n'], false, ['%', 'Y', '%', 'm', '%', 'd', '_', '%', 'H', '%', 'M', '%', 'S']), (['%', 'Y'], false, ['%', 'Y']), (['%', 'y'], false, ['%', 'y']), (['%', '-', 'y'], true, ['%', 'y']), (['%', 'm'], false, ['%', 'm']), (['%', '-', 'm'], true, ['%', 'm']), (['%', 'b'], false, ['%', 'b']), (['%', 'B'], false, ['%', 'B']), (['%', 'a'], false, ['%', 'a']), (['%', 'A'], false, ['%', 'A']), (['%', 'w'], false, ['%', 'w']), (['%', 'u'], false, ['%', 'u']), (['%', 'd'], false, ['%', 'd']), (['%', '-', 'd'], true, ['%', 'd']), (['%', 'H'], false, ['%', 'H']), (['%', '-', 'H'], true, ['%', 'H']), (['%', 'I'], false, ['%', 'I']), (['%', '-', 'I'], true, ['%', 'I']), (['%', 'M'], false, ['%', 'M']), (['%', '-', 'M'], true, ['%', 'M']), (['%', 'S'], false, ['%', 'S']), (['%', '-', 'S'], true, ['%', 'S']), (['%', 'j'], false, ['%', 'j']), (['%', '-', 'j'], true, ['%', 'j']), (['%', 'U'], false, ['%', 'U']), (['%', 'W'], false, ['%', 'W']), (['%', 'p'], false, ['%', 'p']), (['%', 'f'], false, ['%', 'f'])]
-def from_prefix_table : List (List Char × List (List Char)) := [(['a'], [['a', 'l', 'p', 'h', 'a']]), (['b'], [['b', 'e', 't', 'a']]), (['r', 'c'], [['c'], ['p', 'r', 'e'], ['p', 'r', 'e', 'v', 'i', 'e', 'w']]), (['p', 'o', 's', 't'], [['r', 'e', 'v'], ['r'], ['p', 'o', 's', 't']])]
-def from_prefix_tail : List Char := ['[', '-', '_', '.', ']', '?', '[', '0', '-', '9', ']', '+']
-def from_prefix_tail2 : List Char := ['[', '-', '_', '.', ']', '?', '[', '0', '-', '9', ']', '+']
-def from_prefix_implicit : List Char := ['-', '[', '0', '-', '9', ']', '+']
-
--- ---- assets ------------------------------------------------------------
-def asset_serial_rows : List (List Char × List Char × Bool × List Char) := [(['%', 'n'], ['n', 'u', 'm', 'b', 'e', 'r'], false, ['[', '0', '-', '9', ']', '*']), (['%', 'p'], ['n', 'u', 'm', 'b', 'e', 'r', '_', 'p', 'a', 'd'], false, ['[', '0', '-', '9', ']', '{', '3', '}']), (['%', 'b'], ['n', 'u', 'm', 'b', 'e', 'r', '_', 'b', 'i', 'n', 'a', 'r', 'y'], false, ['[', '0', '-', '1', ']', '{', '8', '}']), (['%', 'c'], ['n', 'u', 'm', 'b', 'e', 'r', '_', 'c', 'o', 'm', 'm', 'a'], false, ['\\', 'd', '{', '1', ',', '3', '}', '(', '?', ':', ',', '\\', 'd', '{', '3', '}', ')', '*']), (['%', 'u'], ['n', 'u', 'm', 'b', 'e', 'r', '_', 'u', 'n', 'd', 'e', 'r', 's', 'c', 'o', 'r', 'e'], false, ['\\', 'd', '{', '1', ',', '3', '}', '(', '?', ':', '_', '\\', 'd', '{', '3', '}', ')', '*'])]
-def asset_serial_default_fmt : List Char := ['%', 'n']
-def asset_serial_max_padding : Nat := 3
-def asset_serial_max_binary : Nat := 8
-def asset_datetime_rows : List (List Char × List Char × Bool × List Char) := [(['%', 'n'], ['n', 'o', 'r', 'm', 'a', 'l'], true, ['%', 'Y', '%', 'm', '%', 'd', '_', '%', 'H', '%', 'M', '%', 'S']), (['%', 'Y'], ['y', 'e', 'a', 'r'], false, ['\\', 'd', '{', '4', '}']), (['%', 'm'], ['m', 'o', 'n', 't', 'h', '_', 'p', 'a', 'd'], false, ['0', '1', '|', '0', '2', '|', '0', '3', '|', '0', '4', '|', '0', '5', '|', '0', '6', '|', '0', '7', '|', '0', '8', '|', '0', '9', '|', '1', '0', '|', '1', '1', '|', '1', '2']), (['%', 'd'], ['d', 'a', 'y', '_', 'p', 'a', 'd'], false, ['[', '0', '-', '3', ']', '[', '0', '-', '9', ']']), (['%', 'H'], ['h', 'o', 'u', 'r', '_', 'p', 'a', 'd'], false, ['[', '0', '-', '2', ']', '[', '0', '-', '9', ']']), (['%', 'M'], ['m', 'i', 'n', 'u', 't', 'e', '_', 'p', 'a', 'd'], false, ['[', '0', '-', '6', ']', '[', '0', '-', '9', ']']), (['%', 'S'], ['s', 'e', 'c', 'o', 'n', 'd', '_', 'p', 'a', 'd'], false, ['[', '0', '-', '6', ']', '[', '0', '-', '9', ']'])]
-def asset_datetime_default_fmt : List Char := ['%', 'Y', '-', '%', 'm', '-', '%', 'd', ' ', '%', 'H', ':', '%', 'M', ':', '%', 'S']
-def asset_datetime_default_year : Nat := 1900
-def asset_anchor_pre : List Char := ['^']
-def asset_anchor_post : List Char := ['\\', 'Z']
-def asset_gen_format_token_re : List Char := ['%', '%', '|', '%', '[', '-', '+', '!', '*', ']', '?', '[', 'A', '-', 'Z', 'a', '-', 'z', ']']
-def asset_gen_format_inner_re : List Char := ['\\', '(', '\\', '?', 'P', '<', '(', '?', 'P', '<', 'a', 'l', 'i', 'a', 's', '>', '\\', 'w', '+', ')', '>', '(', '?', 'P', '<', 'f', 'm', 't', '>', '(', '?', ':', '(', '?', '!', '\\', '(', '\\', '?', 'P', '<', '\\', 'w', '+', '>', ')', '.', ')', '*', ')', '\\', ')']
-
--- ---- probes ------------------------------------------------------------
-def const_escape_chars : List Char := ['$', '(', ')', '*', '+', '.', '?', '[', '\\', ']', '^', '{', '|', '}']
-def const_aliases_source : Bool := false
-def const_values_aliases : Bool := false
-
-end Gen
+/- GENERATED: all regenerated tables. -/
+import FmtModel.Generated.Assets
+import FmtModel.Generated.Fmt
+import FmtModel.Generated.Ver
